@@ -560,6 +560,14 @@ func (r *Run) jobMain(j *JobRec) int {
 		return r.jobFail(j, md, "errors", "signal: simulated transient failure in "+j.Stage)
 	case "assert":
 		return r.jobFail(j, md, "assert", "simulated assertion in "+j.Stage)
+	case "assert-then-die":
+		// the stage code asserts - and the process is killed before it exits (out of
+		// memory killer, an operator's kill -9): mrp adds the signal to the record,
+		// which does not make the assertion a transient failure
+		r.jobFail(j, md, "assert", "simulated assertion in "+j.Stage)
+		j.Outcome = "failed:assert+killed"
+		vproc.Finish(j.proc, -1, syscall.SIGKILL)
+		select {}
 	case "exit-nonzero":
 		j.Outcome = "failed:exit"
 		j.EndSeq = vos.NextSeq()
